@@ -118,6 +118,25 @@ def main():
                 i0.run()
                 if float(i0.loss_inferred) != float(inf.loss_inferred):
                     extra['failures'].append({'what': 'Inference loaded before running gives a different result', 'a': float(i0.loss_inferred), 'b': float(inf.loss_inferred)})
+                # start values drawn from the seeded generator (x0=None) must survive the round trip
+                def mk():
+                    return pg.Inference(bounds={'N': (0.5, 4)}, coal=lambda N: pg.Coalescent(n=3, demography=pg.Demography(pop_sizes=N), parallelize=False),
+                                        loss=lambda c, o: (c.tree_height.mean - o) ** 2, observation=2.0, n_runs=2,
+                                        parallelize=False, pbar=False, seed=7)
+                i2 = mk()
+                x0 = dict(i2.x0)
+                l2 = pg.Inference.from_json(i2.to_json())
+                if dict(l2.x0) != x0:
+                    extra['failures'].append({'what': 'sampled start values differ after save/load', 'original': x0, 'loaded': dict(l2.x0)})
+                i2.run(); l2.run()
+                if list(map(float, l2.loss_runs)) != list(map(float, i2.loss_runs)) or \
+                        {k: float(v) for k, v in l2.params_inferred.items()} != {k: float(v) for k, v in i2.params_inferred.items()}:
+                    extra['failures'].append({'what': 'Inference saved before running (sampled start values) gives a different result after loading',
+                                              'original': list(map(float, i2.loss_runs)), 'loaded': list(map(float, l2.loss_runs))})
+                i3 = mk(); i3.run()
+                l3 = pg.Inference.from_json(i3.to_json())
+                if dict(l3.x0) != dict(i3.x0):
+                    extra['failures'].append({'what': 'start values of a finished run differ after save/load'})
                 a = pg.SFS2(np.arange(16, dtype=float).reshape(4, 4) / 7)
                 b = pg.SFS2.from_json(a.to_json())
                 if not np.array_equal(a.data, b.data):
